@@ -756,9 +756,10 @@ fn parse_cast(
         .map(|ty| ty.precede(p))
         .unwrap_or_else(|| p.start());
 
-    // we already asserted before, so this is safe
+    // we already asserted before, so this is safe.
+    // (`expect` and not `bump` for the paren, because there might be trivia between it and the dot)
     p.bump();
-    p.bump();
+    p.expect(TokenKind::LParen);
 
     if !p.at(TokenKind::RParen) {
         parse_expr_with_recovery_set(
@@ -845,7 +846,8 @@ fn parse_struct_literal(
         .unwrap_or_else(|| p.start());
 
     p.expect_with_no_skip(TokenKind::Dot);
-    p.bump();
+    // we already asserted that this is here, but there might be trivia between it and the dot
+    p.expect(TokenKind::LBrace);
 
     loop {
         if p.at(TokenKind::RBrace) {
